@@ -41,6 +41,7 @@ Num(m)    == [t |-> "num", n |-> m]
 Str(str)  == [t |-> "str", s |-> str]
 StrNum(str) == [t |-> "strnum", s |-> str]     \* input-derived text
 Bad       == [t |-> "bad"]
+NaN       == [t |-> "nan"]             \* the not-a-number value (log of a negative number): unordered, not zero
 
 Abs(m) == IF m < 0 THEN 0 - m ELSE m
 
@@ -91,6 +92,7 @@ ToNum(v) ==               \* integer or BADN
 ToStr(v) ==               \* byte string
   CASE v.t = "null" -> <<>>
     [] v.t = "num"  -> IntStr(v.n)
+    [] v.t = "nan"  -> <<c_n, c_a, c_n>>
     [] OTHER -> v.s
 
 IsBadV(v) == v.t = "bad"
@@ -102,6 +104,7 @@ Risky(v)   == v.t \in {"str", "strnum"} /\ ~SafeStr(v.s)
 B2I(bv) == IF bv THEN 1 ELSE 0
 Truth(v) ==               \* 1 true / 0 false / 2 outside the model
   CASE v.t = "null" -> 0
+    [] v.t = "nan"  -> 1
     [] v.t = "num"  -> B2I(v.n # 0)
     [] v.t = "str"  -> B2I(v.s # <<>>)
     [] v.t = "strnum" -> IF ~SafeStr(v.s) THEN 2
@@ -118,8 +121,11 @@ StrLess(x, y) ==
   ELSE StrLess(Tail(x), Tail(y))
 
 \* -1 / 0 / 1, or 9 (outside the model)
+\* 0 - 1 / 0 / 1, 8 = unordered (a NaN compared numerically), 9 = outside the model
 Cmp(x, y) ==
   IF Risky(x) \/ Risky(y) THEN 9
+  ELSE IF x.t = "nan" \/ y.t = "nan"
+       THEN IF TrueStr(x) \/ TrueStr(y) THEN 9 ELSE 8
   ELSE IF TrueStr(x) \/ TrueStr(y)
        THEN LET sx == ToStr(x) sy == ToStr(y)
             IN IF sx = sy THEN 0 ELSE IF StrLess(sx, sy) THEN 0 - 1 ELSE 1
@@ -128,6 +134,8 @@ Cmp(x, y) ==
                ELSE IF nx = ny THEN 0 ELSE IF nx < ny THEN 0 - 1 ELSE 1
 
 CmpOp(op, cv) ==
+  IF cv = 8 THEN op = "!="         \* unordered: every comparison is false except !=
+  ELSE
   CASE op = "<"  -> cv < 0
     [] op = "<=" -> cv <= 0
     [] op = "==" -> cv = 0
@@ -246,25 +254,7 @@ SetField(st, m, v) ==
   ELSE [st EXCEPT !.rec = RecSetField(st.rec, m, ToStr(v)), !.ftag = @ \cup {m}, !.ltag = TRUE]
 
 \* ------------------------------------------------- sub/gsub and printf text
-\* replacement text for one match: & is the matched text, \& a literal ampersand, \\ a backslash
-RECURSIVE ExpandRepl(_, _)
-ExpandRepl(rp, matched) ==
-  IF rp = <<>> THEN <<>>
-  ELSE IF rp[1] = AMP THEN matched \o ExpandRepl(Tail(rp), matched)
-  ELSE IF rp[1] = BSL /\ Len(rp) >= 2 /\ rp[2] \in {AMP, BSL} THEN <<rp[2]>> \o ExpandRepl(SubSeq(rp, 3, Len(rp)), matched)
-  ELSE <<rp[1]>> \o ExpandRepl(Tail(rp), matched)
-
-\* <<new string, number of replacements>>: all (gsub) or the first (sub) of the non-overlapping
-\* leftmost-longest matches
-Substitute(re, rp, str, global) ==
-  LET all == FindAll(re, str)
-      ms == IF global \/ all = <<>> THEN all ELSE <<all[1]>>
-      nm == Len(ms)
-      Gap(j) == SubSeq(str, IF j = 1 THEN 1 ELSE ms[j - 1][2], IF j = nm + 1 THEN Len(str) ELSE ms[j][1] - 1)
-      RECURSIVE Build(_)
-      Build(j) == IF j > nm THEN Gap(nm + 1)
-                  ELSE Gap(j) \o ExpandRepl(rp, SubSeq(str, ms[j][1], ms[j][2] - 1)) \o Build(j + 1)
-  IN <<Build(1), nm>>
+\* ExpandRepl and Substitute (sub / gsub on a text) are in Regex.tla
 
 \* printf/sprintf for the directives %d %s %c(har of a string) %% with optional '-' and width;
 \* anything else is outside this model.  Returns bytes, or <<0 - 1>> for "outside the model",
@@ -507,6 +497,7 @@ BuiltinCall(f, args, st) ==
          LET r == Eval(args[1], st) x == NumOf(r[1])
          IN IF ~Live(r[2]) THEN r
             ELSE IF x = BADN THEN <<Null, Halt(r[2], "bad")>>
+            ELSE IF f = "log" /\ x < 0 THEN <<NaN, r[2]>>
             ELSE CASE f = "sqrt" /\ x >= 0 /\ (\E q \in 0..100 : q * q = x) -> <<Num(CHOOSE q \in 0..100 : q * q = x), r[2]>>
                    [] f = "exp" /\ x = 0 -> <<Num(1), r[2]>>
                    [] f = "log" /\ x = 1 -> <<Num(0), r[2]>>
